@@ -236,14 +236,14 @@ impl lax::optic::Optic<u32, u64, u32, u64> for LaxOptic {
         // composite images (and every other structural image) are handed over the way a user
         // builds them with new_operation + unify: with pending unifications
         let p = self.0.fwd(a, source, target);
-        if p.e.len() > 1 || *a % 2 == 1 { to_lax(&explode(&p)) } else { to_lax(&p.to_lax()) }
+        if p.e.len() > 1 || *a % 2 == 1 { to_lax(&explode_shuffled(&p)) } else { to_lax(&p.to_lax()) }
     }
     fn rev_object(&self, o: &u32) -> Vec<u32> {
         self.0.robj(o)
     }
     fn rev_operation(&self, a: &u64, source: &[u32], target: &[u32]) -> LOh<u32, u64> {
         let p = self.0.rev(a, source, target);
-        if p.e.len() > 1 || *a % 2 == 0 { to_lax(&explode(&p)) } else { to_lax(&p.to_lax()) }
+        if p.e.len() > 1 || *a % 2 == 0 { to_lax(&explode_shuffled(&p)) } else { to_lax(&p.to_lax()) }
     }
     fn residual(&self, a: &u64) -> Vec<u32> {
         self.0.residual(a)
